@@ -80,6 +80,26 @@ def analyse_loop(facts, R, path, module):
                 A = (i, vm, e[1])
                 break
     if A is None:
+        # the attempt may live in a helper (inlined) instead of an immediately-invoked closure: the attempt outcome is then the
+        # Ok/Err test whose Err edge dominates the retry decision (is_retryable_error)
+        retry_calls = [i for i, t in b.calls() if is_call(("call", t["callee"]["path"], (), i), module + "::is_retryable_error")]
+        for i in sorted(b.live_blocks()):
+            t = b.term(i)
+            if t["k"] != "switch" or t.get("threaded_switch"):
+                continue
+            e = sym.op(t["on"])
+            if e[0] != "discr" or not (N in b.reachable((i,)) and b.dominates(N, i)):
+                continue
+            vm = _switch_variants(b, facts, i)
+            if not (vm and "Ok" in vm and "Err" in vm):
+                continue
+            if is_call(e[1], "branch") or "Try>::branch" in render(e[1])[:40]:
+                continue
+            err_t = [vm["Err"]]
+            if retry_calls and all(b.dominates(err_t[0], rc) for rc in retry_calls):
+                A = (i, vm, e[1])
+                break
+    if A is None:
         R.bad("bounded-loop", fn, "attempt-outcome", "cannot find the match on the attempt's Result inside the retry loop", b.span)
         return
     Abb, vm, outcome = A
@@ -266,6 +286,20 @@ def run(facts, R):
         if not filt:
             # coroutine: value assigned to _0 may be built later; search all calls
             filt = [("call", t["callee"]["path"], tuple(sym.op(a) for a in t["args"]), i) for i, t in b.calls() if t["callee"]["name"] == "filter"]
+        if not filt:
+            # explicit loop: for node in nodes.values() { if tag_set.is_subset(&node.tags) { targets.push(node.clone()) } }
+            pushes = [(i, t) for i, t in b.calls() if t["callee"]["name"] == "push" and "Vec" in t["callee"]["path"]]
+            okl = len(pushes) == 1
+            for i, t in pushes:
+                fsx = facts_at(b, sym, facts, i)
+                sub = [f for f in fsx if f["val"] is True and is_call(f["expr"], "is_subset")]
+                item = render(sym.op(t["args"][1]))
+                okl = okl and len(sub) == 1 and ("tag_set" in render(sub[0]["expr"][2][0]) or "iter(tags)" in render(sub[0]["expr"][2][0]) or "iter(arg1.tags)" in render(sub[0]["expr"][2][0])) and render(sub[0]["expr"][2][1]).endswith(".tags") and "next(" in item and "values(" in item \
+                    and "next(" in render(sub[0]["expr"][2][1])
+            lossy = [t["callee"]["name"] for i, t in b.calls() if t["callee"].get("trait") == "std::iter::Iterator" and t["callee"]["name"] not in ("next", "map", "collect", "cloned")]
+            R.check(okl and not lossy, "tag-filter", b.path, "one filter", "node selection loop does not push exactly the nodes with tag_set.is_subset(node.tags) (adapters %s)" % lossy, b.span,
+                    "for node in values() { if tag_set.is_subset(node.tags) { push(node) } }")
+            continue
         R.check(len(filt) == 1, "tag-filter", b.path, "one filter", "expected one filter over the node map, found %d" % len(filt), b.span)
         chain_names = [t["callee"]["name"] for i, t in b.calls() if t["callee"].get("trait") == "std::iter::Iterator" and t["callee"]["name"] not in ("map",)]
         bad = [n for n in chain_names if n not in ("filter", "cloned", "collect", "next")]
@@ -284,15 +318,22 @@ def run(facts, R):
                                 ("async_fleet::AsyncFleet::broadcast_json::{closure#0}", "spawn", "async_fleet::AsyncFleet::call_json_with_retry")):
         b = facts.body(path)
         sym = Sym(b)
-        sp = [(i, t) for i, t in b.calls() if t["callee"]["name"] == "spawn"]
-        R.check(len(sp) == 1, "tag-filter", b.path, "one spawn site", "broadcast has %d spawn sites" % len(sp), b.span)
+        fam = [b] + facts.children(b.path)
+        sp_all = [(fb, i, t) for fb in fam for i, t in fb.calls() if t["callee"]["name"] == "spawn"]
+        R.check(len(sp_all) == 1, "tag-filter", b.path, "one spawn site", "broadcast has %d spawn sites" % len(sp_all), b.span)
+        sp = [(i, t) for fb, i, t in sp_all if fb is b]
+        sym_of = {id(fb): Sym(fb) for fb in fam}
         ins = [(i, t) for i, t in b.calls() if t["callee"]["name"] == "insert" and "HashMap" in t["callee"]["path"]]
-        R.check(len(ins) == 1, "tag-filter", b.path, "one insert site", "broadcast has %d result insert sites" % len(ins), b.span)
+        collected = [(i, t) for i, t in b.calls() if t["callee"]["name"] == "collect" and "HashMap" in b.local_ty(t["dest"]["l"])]
+        lossy = [t["callee"]["name"] for fb in fam for i, t in fb.calls() if t["callee"].get("trait") == "std::iter::Iterator"
+                 and t["callee"]["name"] in ("take", "skip", "step_by", "filter", "take_while", "skip_while", "zip", "rev", "chain")]
+        R.check((len(ins) == 1 or (not ins and len(collected) == 1)) and not lossy, "tag-filter", b.path, "one insert site",
+                "broadcast has %d result insert sites / %d collected maps (adapters %s)" % (len(ins), len(collected), lossy), b.span)
         src = [(i, t) for i, t in b.calls() if t["callee"]["name"] == "snapshot_target_nodes"]
         R.check(len(src) == 1, "tag-filter", b.path, "targets from snapshot_target_nodes", "found %d" % len(src), b.span)
         # worker closure calls the retrying call once with the node it was given
-        for i, t in sp:
-            clo = sym.op(t["args"][0])
+        for fb, i, t in sp_all:
+            clo = sym_of[id(fb)].op(t["args"][0])
             if clo[0] == "agg" and (clo[1].startswith("closure:") or clo[1].startswith("coroutine:")):
                 wb = facts.body(clo[1].split(":", 1)[1])
                 calls = [(x, y) for x, y in wb.calls() if callee_matches(y["callee"], worker)]
